@@ -1,13 +1,12 @@
 import WM.Lemmas.IndexMp
-/-! BufferedWriter: adding documents, flushing at the limit, closing. -/
+/-! BufferedWriter: every call sees committed + buffered documents; flushes and `close()` lose nothing. -/
 namespace WM.Index
 open WM.Dict
 
-/-- invariant of a buffered writer between calls (no deletions pending in RAM) -/
+/-- invariant of a buffered writer between calls -/
 structure BInv (b : Buffered) : Prop where
   wwf : b.writer.WF
   rwf : b.ram.WF
-  rdel : b.ram.deleted = []
   rfit : ∀ d ∈ b.ram.docs, d.fits b.writer.schema = true
   ndocs : b.writer.ndocs = []
   added : b.writer.added = false
@@ -16,21 +15,35 @@ structure BInv (b : Buffered) : Prop where
 
 theorem emptySeg_wf : emptySeg.WF := ⟨by simp [emptySeg], by simp [emptySeg], by simp [emptySeg, allPostings], by simp [emptySeg]⟩
 
-theorem Buffered.content_eq (b : Buffered) (h : b.ram.deleted = []) (hf : ∀ d ∈ b.ram.docs, d.fits b.writer.schema = true) :
-    b.content = contentOf b.writer.schema b.writer.segs ++ b.ram.docs := by
+theorem map_restrict_fits (sc : Schema) (l : List DocRec) (h : ∀ d ∈ l, d.fits sc = true) : l.map (restrict sc) = l := by
+  conv => rhs; rw [← List.map_id l]
+  apply List.map_congr_left
+  intro d hd; exact restrict_of_fits _ _ (h d hd)
+
+theorem liveDocs_mem_docs (s : Seg) : ∀ d ∈ s.liveDocs, d ∈ s.docs := by
+  intro d hd
+  simp only [Seg.liveDocs, Seg.liveIdx, List.mem_map, List.mem_filter] at hd
+  obtain ⟨q, ⟨hq, _⟩, rfl⟩ := hd
+  have := List.mem_zipIdx (x := q.1) (i := q.2) hq
+  rw [this.2.2]; exact List.getElem_mem _
+
+/-- what the buffered writer's own reader shows: committed + buffered (live) documents -/
+theorem Buffered.content_eq (b : Buffered) (hf : ∀ d ∈ b.ram.docs, d.fits b.writer.schema = true) :
+    b.content = contentOf b.writer.schema b.writer.segs ++ b.ram.liveDocs := by
   simp only [Buffered.content, Buffered.readSegs, contentOf_append]
   congr 1
   simp only [contentOf, List.flatMap_cons, List.flatMap_nil, List.append_nil]
-  rw [Seg.liveDocs_of_no_deletions _ h]
-  conv => rhs; rw [← List.map_id b.ram.docs]
-  apply List.map_congr_left
-  intro d hd; exact restrict_of_fits _ _ (hf d hd)
+  exact map_restrict_fits _ _ (fun d hd => hf d (liveDocs_mem_docs _ d hd))
 
-/-- flushing: `add_reader(ramreader)` + `commit` + a new writer -/
+/-- flushing: `add_reader(ramreader)` + `commit` -/
 theorem Buffered.flush_spec (b : Buffered) (hi : BInv b) :
     ∃ t, (if b.count > 0 then b.writer.addReader b.ram else .ok b.writer).bind (fun w => w.commitPlan b.plan) = .ok t ∧
       t.WF ∧ t.schema = b.writer.schema ∧ t.content.Perm b.content := by
-  have hcontent := Buffered.content_eq b hi.rdel hi.rfit
+  have hcontent := Buffered.content_eq b hi.rfit
+  have hlive : b.ram.liveDocs.map (restrict b.writer.schema) = b.ram.liveDocs :=
+    map_restrict_fits _ _ (fun d hd => hi.rfit d (liveDocs_mem_docs _ d hd))
+  have h3 := contentOf_perm b.writer.schema (hi.plan b.writer.segs)
+  rw [contentOf_append] at h3
   by_cases hc : b.count > 0
   · obtain ⟨w1, h1, wf1⟩ := Writer.addReader_ok b.writer b.ram hi.wwf hi.rwf
     obtain ⟨a1, a2, a3, a4, a5, _⟩ := Writer.addReader_fields b.writer b.ram w1 h1
@@ -42,15 +55,7 @@ theorem Buffered.flush_spec (b : Buffered) (hi : BInv b) :
       rw [a1]; exact restrict_fits _ _
     obtain ⟨c1, _, c3⟩ := Writer.commitPlan_content w1 b.plan t h2 hfit1 (by intro h; rw [a4] at h; cases h)
     refine ⟨t, by simp only [hc, if_true, h1, bind, Except.bind]; exact h2, wft, by rw [c1, a1], ?_⟩
-    rw [show t.content = _ from c3, hcontent, a1, a2, a5, hi.ndocs, List.nil_append,
-      Seg.liveDocs_of_no_deletions _ hi.rdel]
-    have h3 := contentOf_perm b.writer.schema (hi.plan b.writer.segs)
-    rw [contentOf_append] at h3
-    have hmap : b.ram.docs.map (restrict b.writer.schema) = b.ram.docs := by
-      conv => rhs; rw [← List.map_id b.ram.docs]
-      apply List.map_congr_left
-      intro d hd; exact restrict_of_fits _ _ (hi.rfit d hd)
-    rw [hmap]
+    rw [show t.content = _ from c3, hcontent, a1, a2, a5, hi.ndocs, List.nil_append, hlive]
     -- u ++ (r ++ m)  ~  (m ++ u) ++ r
     refine List.Perm.trans ?_ (h3.append_right _)
     refine (List.Perm.append_left _ List.perm_append_comm).trans ?_
@@ -60,16 +65,17 @@ theorem Buffered.flush_spec (b : Buffered) (hi : BInv b) :
     obtain ⟨t, h2, wft⟩ := Writer.commitPlan_ok b.writer b.plan hi.wwf (hi.plan.sub _)
     obtain ⟨c1, _, c3⟩ := Writer.commitPlan_content b.writer b.plan t h2 (by simp [hi.ndocs]) (fun _ => hi.ndocs)
     refine ⟨t, by simp only [hc, if_false, bind, Except.bind]; exact h2, wft, c1, ?_⟩
-    rw [show t.content = _ from c3, hcontent, hi.ndocs, hi.count hc0, List.nil_append, List.append_nil]
-    have h3 := contentOf_perm b.writer.schema (hi.plan b.writer.segs)
-    rw [contentOf_append] at h3
+    have hram : b.ram.liveDocs = [] := by
+      have := hi.count hc0
+      simp [Seg.liveDocs, Seg.liveIdx, this]
+    rw [show t.content = _ from c3, hcontent, hi.ndocs, hram, List.nil_append, List.append_nil]
     exact List.perm_append_comm.trans h3
 
 theorem Buffered.commit_spec (b : Buffered) (hi : BInv b) :
-    ∃ b', b.commit = .ok b' ∧ BInv b' ∧ b'.writer.schema = b.writer.schema ∧ b'.limit = b.limit ∧
+    ∃ b', b.commit = .ok b' ∧ BInv b' ∧ b'.writer.schema = b.writer.schema ∧ b'.limit = b.limit ∧ b'.plan = b.plan ∧
       b'.content.Perm b.content := by
   obtain ⟨t, h1, wft, hs, hc⟩ := Buffered.flush_spec b hi
-  refine ⟨{ b with writer := t.writer, ram := emptySeg, count := 0 }, ?_, ?_, hs, rfl, ?_⟩
+  refine ⟨{ b with writer := t.writer, ram := emptySeg, count := 0 }, ?_, ?_, hs, rfl, rfl, ?_⟩
   · unfold Buffered.commit
     cases h0 : (if b.count > 0 then b.writer.addReader b.ram else Except.ok b.writer) with
     | error e => rw [h0] at h1; simp [bind, Except.bind] at h1
@@ -77,17 +83,27 @@ theorem Buffered.commit_spec (b : Buffered) (hi : BInv b) :
       rw [h0] at h1
       simp only [bind, Except.bind] at h1 ⊢
       rw [h1]; rfl
-  · exact ⟨Toc.writer_wf t wft, emptySeg_wf, rfl, by simp [emptySeg], rfl, rfl, fun _ => rfl, hi.plan⟩
+  · exact ⟨Toc.writer_wf t wft, emptySeg_wf, by simp [emptySeg], rfl, rfl, fun _ => rfl, hi.plan⟩
   · simp only [Buffered.content, Buffered.readSegs, contentOf_append, Toc.writer]
     have : contentOf t.schema [emptySeg] = [] := by simp [contentOf, emptySeg, Seg.liveDocs, Seg.liveIdx]
     rw [this, List.append_nil]
     simp only [Buffered.content, Buffered.readSegs, contentOf_append, Toc.content] at hc
     exact hc
 
-/-- `add_document` on the buffered writer: the document becomes visible to the writer's own reader
-    at once; reaching the limit flushes without changing what the reader sees. -/
+theorem liveDocs_append_doc (s : Seg) (d : DocRec) (posts : List Posting) (hr : ∀ n ∈ s.deleted, n < s.docCountAll) :
+    ({ docs := s.docs ++ [d], posts := posts, deleted := s.deleted } : Seg).liveDocs = s.liveDocs ++ [d] := by
+  simp only [Seg.liveDocs, Seg.liveIdx, Seg.isDeleted, List.zipIdx_append, List.filter_append, List.map_append]
+  congr 1
+  simp only [List.zipIdx_cons, List.zipIdx_nil, Nat.zero_add]
+  have hnm : s.docs.length ∉ s.deleted := by
+    intro hm
+    have := hr _ hm
+    simp [Seg.docCountAll] at this
+  simp [List.filter_cons, hnm]
+
+/-- `add_document` on the buffered writer -/
 theorem Buffered.addDocument_spec (b : Buffered) (hi : BInv b) (d : DocRec) (hf : d.fits b.writer.schema = true) :
-    ∃ b', b.addDocument d = .ok b' ∧ BInv b' ∧ b'.writer.schema = b.writer.schema ∧ b'.limit = b.limit ∧
+    ∃ b', b.addDocument d = .ok b' ∧ BInv b' ∧ b'.writer.schema = b.writer.schema ∧ b'.limit = b.limit ∧ b'.plan = b.plan ∧
       b'.content.Perm (b.content ++ [d]) := by
   let ram' : Seg := { docs := b.ram.docs ++ [d]
                       posts := (b.ram.posts ++ docPostings d b.ram.docs.length).mergeSort Posting.le
@@ -106,26 +122,24 @@ theorem Buffered.addDocument_spec (b : Buffered) (hi : BInv b) (d : DocRec) (hf 
       rw [allPostings_append, allPostings_singleton, Nat.zero_add]
       exact hi.rwf.posts.append_right _
   have hi1 : BInv b1 :=
-    ⟨hi.wwf, hram, hi.rdel, by
+    ⟨hi.wwf, hram, by
       intro x hx
       simp only [b1, ram', List.mem_append, List.mem_singleton] at hx
       rcases hx with hx | rfl
       · exact hi.rfit x hx
       · exact hf, hi.ndocs, hi.added, by intro h; simp [b1] at h, hi.plan⟩
   have hc1 : b1.content = b.content ++ [d] := by
-    rw [Buffered.content_eq b1 hi1.rdel hi1.rfit, Buffered.content_eq b hi.rdel hi.rfit]
-    simp [b1, ram', List.append_assoc]
+    rw [Buffered.content_eq b1 hi1.rfit, Buffered.content_eq b hi.rfit]
+    show _ ++ ram'.liveDocs = _
+    rw [liveDocs_append_doc b.ram d _ hi.rwf.delRange, List.append_assoc]
   have hstep : b.addDocument d = if b1.count ≥ b1.limit then b1.commit else .ok b1 := by
     simp only [Buffered.addDocument, hf, Bool.not_true, Bool.false_eq_true, if_false]
     rfl
   by_cases hl : b1.count ≥ b1.limit
-  · obtain ⟨b2, h2, hi2, hs2, hl2, hc2⟩ := Buffered.commit_spec b1 hi1
-    exact ⟨b2, by rw [hstep]; simp only [hl, if_true]; exact h2, hi2, hs2, hl2, hc1 ▸ hc2⟩
-  · exact ⟨b1, by rw [hstep]; simp only [hl, if_false], hi1, rfl, rfl, by rw [hc1]⟩
+  · obtain ⟨b2, h2, hi2, hs2, hl2, hp2, hc2⟩ := Buffered.commit_spec b1 hi1
+    exact ⟨b2, by rw [hstep]; simp only [hl, if_true]; exact h2, hi2, hs2, hl2, hp2, hc1 ▸ hc2⟩
+  · exact ⟨b1, by rw [hstep]; simp only [hl, if_false], hi1, rfl, rfl, rfl, by rw [hc1]⟩
 
-/-- Any number of `add_document` calls, then `close()`: at every point the writer's own reader
-    holds the committed documents plus the buffered ones (`addDocument_spec`), and after `close()`
-    the committed index holds all of them — nothing is left unsaved. -/
 theorem Buffered.adds_close (docs : List DocRec) (b : Buffered) (hi : BInv b)
     (hf : ∀ d ∈ docs, d.fits b.writer.schema = true) :
     ∃ b', docs.foldlM (fun b d => b.addDocument d) b = .ok b' ∧ BInv b' ∧ b'.content.Perm (b.content ++ docs) ∧
@@ -135,12 +149,356 @@ theorem Buffered.adds_close (docs : List DocRec) (b : Buffered) (hi : BInv b)
     obtain ⟨t, h1, wft, _, hc⟩ := Buffered.flush_spec b hi
     exact ⟨b, rfl, hi, by simp, t, h1, wft, by simpa using hc⟩
   | cons d r ih =>
-    obtain ⟨b1, h1, hi1, hs1, _, hc1⟩ := Buffered.addDocument_spec b hi d (hf d (by simp))
+    obtain ⟨b1, h1, hi1, hs1, _, _, hc1⟩ := Buffered.addDocument_spec b hi d (hf d (by simp))
     obtain ⟨b', h2, hi', hc', t, h3, wft, hct⟩ := ih b1 hi1 (by intro x hx; rw [hs1]; exact hf x (by simp [hx]))
     have hp : (b1.content ++ r).Perm (b.content ++ d :: r) := by
       refine (hc1.append_right r).trans ?_
       simp [List.append_assoc]
     exact ⟨b', by simp only [List.foldlM_cons, h1, bind, Except.bind]; exact h2, hi', hc'.trans hp, t, h3, wft,
       hct.trans hp⟩
+
+/-! ### deletions through the buffered writer -/
+
+theorem liveGlobal_append (a b : List Seg) (base : Nat) :
+    liveGlobal (a ++ b) base = liveGlobal a base ++ liveGlobal b (base + docCountAllSegs a) := by
+  induction a generalizing base with
+  | nil => simp [liveGlobal, docCountAllSegs]
+  | cons s r ih =>
+    simp only [List.cons_append, liveGlobal, ih, docCountAllSegs_cons, List.append_assoc]
+    congr 3
+    omega
+
+theorem liveGlobal_singleton (s : Seg) (base : Nat) :
+    liveGlobal [s] base = s.liveIdx.map (fun p => (p.1, p.2 + base)) := by simp [liveGlobal]
+
+/-- same frame for a buffered writer: only deleted sets change -/
+structure BFrame (b b' : Buffered) : Prop where
+  wframe : Frame b.writer b'.writer
+  rdocs : b'.ram.docs = b.ram.docs
+  rposts : b'.ram.posts = b.ram.posts
+  count : b'.count = b.count
+  limit : b'.limit = b.limit
+  plan : b'.plan = b.plan
+
+theorem BFrame.refl (b : Buffered) : BFrame b b := ⟨Frame.refl _, rfl, rfl, rfl, rfl, rfl⟩
+theorem BFrame.trans {a b c : Buffered} (h1 : BFrame a b) (h2 : BFrame b c) : BFrame a c :=
+  ⟨h1.wframe.trans h2.wframe, h2.rdocs.trans h1.rdocs, h2.rposts.trans h1.rposts, h2.count.trans h1.count,
+   h2.limit.trans h1.limit, h2.plan.trans h1.plan⟩
+
+/-- `BufferedWriter.delete_document(n)` of a live document: succeeds and removes exactly it from
+    what the writer's reader shows -/
+theorem Buffered.deleteDocument_spec (b : Buffered) (hi : BInv b) (q : DocRec × Nat) (hq : q ∈ liveGlobal b.readSegs 0) :
+    ∃ b', b.deleteDocument q.2 = .ok b' ∧ BInv b' ∧ BFrame b b' ∧
+      liveGlobal b'.readSegs 0 = (liveGlobal b.readSegs 0).filter (fun p => p.2 != q.2) := by
+  simp only [Buffered.readSegs, liveGlobal_append, Nat.zero_add, liveGlobal_singleton, List.mem_append] at hq ⊢
+  unfold Buffered.deleteDocument
+  by_cases hlt : q.2 < docCountAllSegs b.writer.segs
+  · obtain ⟨w', h1, f1, l1⟩ := Writer.deleteDocument_ok b.writer q.2 hlt
+    have wf' := Writer.deleteDocument_wf b.writer q.2 true w' hi.wwf h1
+    refine ⟨{ b with writer := w' }, by simp only [hlt, if_true, h1, Except.map], ?_, ?_, ?_⟩
+    · exact ⟨wf', hi.rwf, by intro d hd; rw [f1.schema]; exact hi.rfit d hd, by rw [f1.ndocs]; exact hi.ndocs,
+        by rw [f1.added]; exact hi.added, hi.count, hi.plan⟩
+    · exact ⟨f1, rfl, rfl, rfl, rfl, rfl⟩
+    · simp only [f1.total, List.filter_append, l1]
+      congr 1
+      symm
+      rw [List.filter_eq_self]
+      intro p hp
+      simp only [List.mem_map] at hp
+      obtain ⟨x, _, rfl⟩ := hp
+      simp; omega
+  · have hge : docCountAllSegs b.writer.segs ≤ q.2 := by omega
+    have hq2 : q ∈ b.ram.liveIdx.map (fun p => (p.1, p.2 + docCountAllSegs b.writer.segs)) := by
+      rcases hq with hq | hq
+      · have := liveGlobal_lt b.writer.segs 0 q hq; omega
+      · exact hq
+    obtain ⟨x, hx, hxq⟩ := List.mem_map.mp hq2
+    have hloc : q.2 - docCountAllSegs b.writer.segs = x.2 := by rw [← hxq]; simp
+    have hxlt := liveIdx_lt b.ram x hx
+    have hxlive := liveIdx_live b.ram x hx
+    refine ⟨{ b with ram := b.ram.deleteDocument x.2 true }, ?_, ?_, ?_, ?_⟩
+    · simp only [hlt, if_false, hloc, hxlt, hxlive, decide_true, Bool.not_false, Bool.and_self, if_true]
+    · exact ⟨hi.wwf, Seg.deleteDocument_wf b.ram x.2 true hi.rwf hxlt, by rw [Seg.deleteDocument_docs]; exact hi.rfit,
+        hi.ndocs, hi.added, by rw [Seg.deleteDocument_docs]; exact hi.count, hi.plan⟩
+    · exact ⟨Frame.refl _, Seg.deleteDocument_docs _ _ _, Seg.deleteDocument_posts _ _ _, rfl, rfl, rfl⟩
+    · simp only [List.filter_append]
+      congr 1
+      · symm
+        rw [List.filter_eq_self]
+        intro p hp
+        have := liveGlobal_lt b.writer.segs 0 p hp
+        simp; omega
+      · rw [Seg.liveIdx_delete, List.filter_map]
+        congr 1
+        apply List.filter_congr
+        intro p _
+        simp only [Function.comp_def]
+        rw [← hxq]
+        simp [bne_add_right]
+
+/-- deleting a duplicate-free list of live document numbers -/
+theorem Buffered.deleteMany_spec (ns : List Nat) (b : Buffered) (hi : BInv b) (hn : ns.Nodup)
+    (hl : ∀ n ∈ ns, ∃ q ∈ liveGlobal b.readSegs 0, q.2 = n) :
+    ∃ b', b.deleteMany ns = .ok b' ∧ BInv b' ∧ BFrame b b' ∧
+      liveGlobal b'.readSegs 0 = (liveGlobal b.readSegs 0).filter (fun p => !ns.contains p.2) := by
+  induction ns generalizing b with
+  | nil => exact ⟨b, rfl, hi, BFrame.refl b, by symm; rw [List.filter_eq_self]; intro a _; simp⟩
+  | cons n r ih =>
+    simp only [List.nodup_cons] at hn
+    obtain ⟨q, hq, rfl⟩ := hl n (by simp)
+    obtain ⟨b1, h1, hi1, f1, l1⟩ := Buffered.deleteDocument_spec b hi q hq
+    obtain ⟨b2, h2, hi2, f2, l2⟩ := ih b1 hi1 hn.2 (by
+      intro m hm
+      obtain ⟨p, hp, rfl⟩ := hl m (by simp [hm])
+      refine ⟨p, ?_, rfl⟩
+      rw [l1, List.mem_filter]
+      refine ⟨hp, ?_⟩
+      have : p.2 ≠ q.2 := by intro he; rw [he] at hm; exact hn.1 hm
+      simpa using this)
+    refine ⟨b2, ?_, hi2, f1.trans f2, ?_⟩
+    · simp only [Buffered.deleteMany, List.foldlM_cons, h1, bind, Except.bind] at h2 ⊢
+      exact h2
+    · rw [l2, l1, List.filter_filter]
+      apply List.filter_congr
+      intro p _
+      by_cases hp : p.2 = q.2
+      · simp [hp]
+      · have : (p.2 != q.2) = true := by simpa using hp
+        simp [this, hp]
+
+theorem map_snd_filter_nodup (L : List (DocRec × Nat)) (h : L.Pairwise (fun a b => a.2 < b.2)) (p : DocRec × Nat → Bool) :
+    ((L.filter p).map (·.2)).Nodup := by
+  rw [List.nodup_iff_pairwise_ne, List.pairwise_map]
+  exact (h.filter p).imp (by intro a b hab; omega)
+
+/-- `delete_by_query` on the buffered writer, for a query denoting predicate `p` -/
+theorem Buffered.deleteByQuery_pred (b : Buffered) (hi : BInv b) (p : DocRec → Bool) :
+    ∃ b', b.deleteByQuery (.pred p) = .ok (b', (b.content.filter p).length) ∧ BInv b' ∧ BFrame b b' ∧
+      b'.content = b.content.filter (fun d => !p d) := by
+  have hds := docsForQuery_pred b.writer.schema p b.readSegs 0
+  obtain ⟨b', h1, hi', f1, l1⟩ := Buffered.deleteMany_spec (docsForQuery b.writer.schema (.pred p) b.readSegs 0) b hi
+    (by rw [hds]; exact map_snd_filter_nodup _ (liveGlobal_pairwise _ _) _)
+    (by
+      intro n hn
+      rw [hds] at hn
+      obtain ⟨q, hq, rfl⟩ := List.mem_map.mp hn
+      exact ⟨q, (List.mem_filter.mp hq).1, rfl⟩)
+  refine ⟨b', ?_, hi', f1, ?_⟩
+  · simp only [Buffered.deleteByQuery, h1, Except.map]
+    congr 2
+    rw [hds, Buffered.content, contentOf_eq_liveGlobal _ _ 0, List.filter_map, List.length_map, List.length_map]
+    rfl
+  · simp only [Buffered.content]
+    rw [contentOf_eq_liveGlobal _ _ 0, contentOf_eq_liveGlobal _ _ 0, l1, f1.wframe.schema, List.filter_map]
+    congr 1
+    apply List.filter_congr
+    intro q hq
+    simp only [Function.comp_def]
+    congr 1
+    rw [hds]
+    by_cases hp : p (restrict b.writer.schema q.1) = true
+    · rw [hp, List.contains_iff_mem]
+      exact List.mem_map.mpr ⟨q, List.mem_filter.mpr ⟨hq, hp⟩, rfl⟩
+    · have hp' : p (restrict b.writer.schema q.1) = false := by simpa using hp
+      rw [hp']
+      apply Bool.eq_false_iff.mpr
+      rw [Ne, List.contains_iff_mem]
+      intro hmem
+      obtain ⟨q', hq', heq⟩ := List.mem_map.mp hmem
+      obtain ⟨hq'1, hq'2⟩ := List.mem_filter.mp hq'
+      have := liveGlobal_inj b.readSegs 0 q' q hq'1 hq heq
+      subst this
+      exact hp hq'2
+
+theorem readSegs_posts (b : Buffered) (hi : BInv b) : ∀ s ∈ b.readSegs, s.posts.Perm (allPostings s.docs) := by
+  intro s hs
+  simp only [Buffered.readSegs, List.mem_append, List.mem_singleton] at hs
+  rcases hs with hs | rfl
+  · exact (hi.wwf.segs s hs).posts
+  · exact hi.rwf.posts
+
+theorem eraseDups_nodup : ∀ (l : List Nat), l.eraseDups.Nodup
+  | [] => by simp
+  | a :: as => by
+    rw [List.eraseDups_cons, List.nodup_cons]
+    refine ⟨?_, eraseDups_nodup _⟩
+    rw [List.mem_eraseDups, List.mem_filter]
+    intro h
+    simp at h
+termination_by l => l.length
+decreasing_by
+  simp only [List.length_cons]
+  exact Nat.lt_succ_of_le (List.length_filter_le _ _)
+
+theorem flatMap_replicate_le_one (L : List (DocRec × Nat)) (c : DocRec × Nat → Nat) (h : ∀ q ∈ L, c q ≤ 1) :
+    L.flatMap (fun q => List.replicate (c q) q.2) = (L.filter (fun q => decide (0 < c q))).map (·.2) := by
+  induction L with
+  | nil => rfl
+  | cons q r ih =>
+    have h1 := h q (by simp)
+    rw [List.flatMap_cons, ih (fun x hx => h x (by simp [hx])), List.filter_cons]
+    by_cases hc : 0 < c q
+    · have : c q = 1 := by omega
+      simp [hc, this]
+    · have : c q = 0 := by omega
+      simp [this]
+
+/-- `delete_by_term` on the buffered writer (a document has at most one posting per term) -/
+theorem Buffered.deleteByQuery_term (b : Buffered) (hi : BInv b) (f t : Nat)
+    (hone : ∀ x ∈ liveGlobal b.readSegs 0, termCount b.writer.schema f t x.1 ≤ 1) :
+    ∃ b', b.deleteByQuery (.term f t) = .ok (b', (b.content.filter (fun d => d.hasTerm f t)).length) ∧ BInv b' ∧
+      BFrame b b' ∧ b'.content = b.content.filter (fun d => !d.hasTerm f t) := by
+  have hp := readSegs_posts b hi
+  have hperm := docsForQuery_term_perm b.writer.schema f t b.readSegs 0 hp
+  rw [flatMap_replicate_le_one _ (fun q => termCount b.writer.schema f t q.1) hone] at hperm
+  obtain ⟨b', h1, hi', f1, l1⟩ := Buffered.deleteMany_spec (docsForQuery b.writer.schema (.term f t) b.readSegs 0) b hi
+    (hperm.nodup_iff.mpr (map_snd_filter_nodup _ (liveGlobal_pairwise _ _) _))
+    (by
+      intro n hn
+      obtain ⟨q, hq, rfl⟩ := List.mem_map.mp (hperm.mem_iff.mp hn)
+      exact ⟨q, (List.mem_filter.mp hq).1, rfl⟩)
+  refine ⟨b', ?_, hi', f1, ?_⟩
+  · simp only [Buffered.deleteByQuery, h1, Except.map]
+    congr 2
+    exact docsForQuery_term_length b.writer.schema f t b.readSegs hp hone
+  · simp only [Buffered.content]
+    rw [contentOf_eq_liveGlobal _ _ 0, contentOf_eq_liveGlobal _ _ 0, l1, f1.wframe.schema, List.filter_map]
+    congr 1
+    apply List.filter_congr
+    intro q hq
+    simp only [Function.comp_def]
+    rw [docsForQuery_term_contains b.writer.schema f t b.readSegs hp q hq]
+
+/-- `update_document` on the buffered writer: documents added earlier through the same writer are
+    replaced too (they are visible to its searcher) -/
+theorem Buffered.updateDocument_spec (b : Buffered) (hi : BInv b) (d : DocRec)
+    (hun : ∀ ft ∈ uniqTerms b.writer.schema d, (b.content.filter (fun c => c.hasTerm ft.1 ft.2)).length ≤ 1) :
+    BInv (b.updateDocument d).1 ∧ (b.updateDocument d).1.writer.schema = b.writer.schema ∧
+    (b.updateDocument d).1.limit = b.limit ∧ (b.updateDocument d).1.plan = b.plan ∧
+    (b.updateDocument d).1.content.Perm
+      (b.content.filter (fun c => !sharesUnique (uniqTerms b.writer.schema d) c) ++
+        (if d.fits b.writer.schema then [d] else [])) := by
+  have hp := readSegs_posts b hi
+  have hmem : ∀ n ∈ findUnique b.writer.schema b.readSegs (uniqTerms b.writer.schema d),
+      ∃ q ∈ liveGlobal b.readSegs 0, q.2 = n := by
+    intro n hn
+    simp only [findUnique, List.mem_eraseDups, List.mem_filterMap] at hn
+    obtain ⟨ft, _, hfirst⟩ := hn
+    rw [firstId_eq_head] at hfirst
+    have hm := List.mem_of_mem_head? hfirst
+    rw [(docsForQuery_term_perm b.writer.schema ft.1 ft.2 b.readSegs 0 hp).mem_iff] at hm
+    simp only [List.mem_flatMap, List.mem_replicate] at hm
+    obtain ⟨q, hq, _, rfl⟩ := hm
+    exact ⟨q, hq, rfl⟩
+  obtain ⟨b1, h1, hi1, f1, l1⟩ := Buffered.deleteMany_spec
+    (findUnique b.writer.schema b.readSegs (uniqTerms b.writer.schema d)) b hi
+    (by unfold findUnique; exact eraseDups_nodup _) hmem
+  have hc1 : b1.content = b.content.filter (fun c => !sharesUnique (uniqTerms b.writer.schema d) c) := by
+    simp only [Buffered.content]
+    rw [contentOf_eq_liveGlobal _ _ 0, contentOf_eq_liveGlobal _ _ 0, l1, f1.wframe.schema, List.filter_map]
+    congr 1
+    apply List.filter_congr
+    intro q hq
+    simp only [Function.comp_def]
+    rw [findUnique_contains b.writer.schema b.readSegs _ hp hun q hq]
+  by_cases hf : d.fits b.writer.schema = true
+  · have hf1 : d.fits b1.writer.schema = true := by rw [f1.wframe.schema]; exact hf
+    obtain ⟨b2, h2, hi2, hs2, hl2, hp2, hc2⟩ := Buffered.addDocument_spec b1 hi1 d hf1
+    have e : b.updateDocument d = (b2, none) := by simp only [Buffered.updateDocument, h1, h2]
+    rw [e]
+    refine ⟨hi2, hs2.trans f1.wframe.schema, hl2.trans f1.limit, hp2.trans f1.plan, ?_⟩
+    simp only [hf, if_true]
+    rw [← hc1]; exact hc2
+  · have hf' : d.fits b.writer.schema = false := by simpa using hf
+    have hf1 : d.fits b1.writer.schema = false := by rw [f1.wframe.schema]; exact hf'
+    have e : b.updateDocument d = (b1, some .unknownField) := by
+      simp only [Buffered.updateDocument, h1, Buffered.addDocument, hf1, Bool.not_false, if_true]
+    rw [e]
+    refine ⟨hi1, f1.wframe.schema, f1.limit, f1.plan, ?_⟩
+    simp only [hf', Bool.false_eq_true, if_false, List.append_nil]
+    rw [hc1]
+
+/-- side conditions per call, on the dictionary state -/
+def BOpOK (sp : State) : Op → Prop
+  | .add _ => True
+  | .update d => ∀ ft ∈ uniqTerms sp.schema d, (sp.docs.filter (fun c => c.hasTerm ft.1 ft.2)).length ≤ 1
+  | .delBy (.pred _) => True
+  | .delBy (.term f t) => ∀ c ∈ sp.docs, termCount sp.schema f t c ≤ 1
+  | _ => False
+
+def BRunOK : State → List Op → Prop
+  | _, [] => True
+  | sp, o :: r => BOpOK sp o ∧ BRunOK (flatStep sp o) r
+
+/-- buffered writer and dictionary agree -/
+structure BRel (b : Buffered) (sp : State) : Prop where
+  inv : BInv b
+  schema : sp.schema = b.writer.schema
+  docs : b.content.Perm sp.docs
+
+theorem termCount_restrict (sc : Schema) (f t : Nat) (d : DocRec) :
+    termCount sc f t (restrict sc d) = termCount sc f t d := by
+  simp only [termCount, restrict_idem]
+
+theorem buffered_step (b : Buffered) (sp : State) (h : BRel b sp) (op : Op) (hok : BOpOK sp op) :
+    BRel (b.step op) (flatStep sp op) := by
+  cases op with
+  | add d =>
+    by_cases hf : d.fits b.writer.schema = true
+    · obtain ⟨b', h1, hi', hs', _, _, hc'⟩ := Buffered.addDocument_spec b h.inv d hf
+      have hf' : d.fits sp.schema = true := by rw [h.schema]; exact hf
+      simp only [Buffered.step, h1, flatStep, hf', if_true]
+      exact ⟨hi', h.schema.trans hs'.symm, hc'.trans (h.docs.append_right _)⟩
+    · have hf0 : d.fits b.writer.schema = false := by simpa using hf
+      have hf' : d.fits sp.schema = false := by rw [h.schema]; exact hf0
+      simp only [Buffered.step, Buffered.addDocument, hf0, Bool.not_false, if_true, flatStep, hf',
+        Bool.false_eq_true, if_false]
+      exact h
+  | update d =>
+    have hun : ∀ ft ∈ uniqTerms b.writer.schema d, (b.content.filter (fun c => c.hasTerm ft.1 ft.2)).length ≤ 1 := by
+      intro ft hft
+      rw [(h.docs.filter _).length_eq]
+      exact hok ft (by rw [h.schema]; exact hft)
+    obtain ⟨hi', hs', _, _, hc'⟩ := Buffered.updateDocument_spec b h.inv d hun
+    refine ⟨hi', h.schema.trans hs'.symm, ?_⟩
+    simp only [Buffered.step, flatStep, h.schema]
+    exact hc'.trans ((h.docs.filter _).append_right _)
+  | delBy q =>
+    cases q with
+    | pred p =>
+      obtain ⟨b', h1, hi', f1, hc'⟩ := Buffered.deleteByQuery_pred b h.inv p
+      simp only [Buffered.step, h1, flatStep]
+      exact ⟨hi', h.schema.trans f1.wframe.schema.symm, by rw [hc']; exact h.docs.filter _⟩
+    | term f t =>
+      have hone : ∀ x ∈ liveGlobal b.readSegs 0, termCount b.writer.schema f t x.1 ≤ 1 := by
+        intro x hx
+        have hm : restrict b.writer.schema x.1 ∈ b.content := by
+          simp only [Buffered.content]
+          rw [contentOf_eq_liveGlobal _ _ 0]
+          exact List.mem_map.mpr ⟨x, hx, rfl⟩
+        have := hok _ (h.docs.mem_iff.mp hm)
+        rw [h.schema, termCount_restrict] at this
+        exact this
+      obtain ⟨b', h1, hi', f1, hc'⟩ := Buffered.deleteByQuery_term b h.inv f t hone
+      simp only [Buffered.step, h1, flatStep]
+      exact ⟨hi', h.schema.trans f1.wframe.schema.symm, by rw [hc']; exact h.docs.filter _⟩
+  | delDoc n => exact absurd hok (by simp [BOpOK])
+  | undelDoc n => exact absurd hok (by simp [BOpOK])
+  | addField f u => exact absurd hok (by simp [BOpOK])
+  | removeField f => exact absurd hok (by simp [BOpOK])
+
+/-- **buffered.** Any sequence of `add_document` / `update_document` / `delete_by_term` /
+`delete_by_query` calls on a `BufferedWriter` (flushes wherever the limit says): after every call
+the writer's own reader holds exactly the dictionary — committed plus buffered documents, buffered
+ones being deletable and replaceable like committed ones — and `close()` commits a well-formed index
+holding the same. -/
+theorem buffered_run (ops : List Op) (b : Buffered) (sp : State) (h : BRel b sp) (hok : BRunOK sp ops) :
+    BRel (ops.foldl Buffered.step b) (ops.foldl flatStep sp) ∧
+    ∃ t, (ops.foldl Buffered.step b).close = .ok t ∧ t.WF ∧ t.content.Perm (ops.foldl flatStep sp).docs := by
+  induction ops generalizing b sp with
+  | nil =>
+    obtain ⟨t, h1, wft, _, hc⟩ := Buffered.flush_spec b h.inv
+    exact ⟨h, t, h1, wft, hc.trans h.docs⟩
+  | cons o r ih => exact ih _ _ (buffered_step b sp h o hok.1) hok.2
 
 end WM.Index
